@@ -32,16 +32,15 @@ def decode_listing(text):
             raise DecodeError('row before header rule: ' + raw[:60])
         if rule_seen < 2:
             continue        # the header text line between the two rules
-        if len(raw) <= cols[2]:
-            raise DecodeError('short row: ' + raw[:60])
-        c0 = raw[:cols[0]].strip()
-        c1 = raw[cols[0] + 1:cols[1]].strip()
-        c2 = raw[cols[1] + 1:cols[2]].strip()
-        c3 = raw[cols[2] + 1:cols[3]] if len(raw) > cols[3] else raw[cols[2] + 1:]
-        c4 = raw[cols[3] + 1:].strip() if len(raw) > cols[3] else ''
-        for i in cols[:3]:
-            if raw[i] != '|':
-                raise DecodeError('column separator missing: ' + raw[:80])
+        # the first three columns (line, address, machine code) never contain '|'; the instruction text may
+        parts = raw.split('|', 3)
+        if len(parts) < 4:
+            raise DecodeError('row with fewer than four columns: ' + raw[:60])
+        c0, c1, c2 = parts[0].strip(), parts[1].strip(), parts[2].strip()
+        rest = parts[3]
+        width = cols[3] - cols[2] - 1
+        c3 = rest[:width] if len(rest) > width and rest[width:width + 1] == '|' else rest.rsplit('|', 1)[0]
+        c4 = rest[width + 1:].strip() if len(rest) > width and rest[width:width + 1] == '|' else rest.rsplit('|', 1)[-1].strip()
         try:
             bs = [int(x, 16) for x in c2.split()] if c2 else []
         except ValueError:
